@@ -2,6 +2,7 @@
 C20 — Simplex utilities stay on the simplex and invert each other.
 """
 import math
+from decimal import Decimal, getcontext
 from fractions import Fraction
 
 import numpy as np
@@ -26,14 +27,23 @@ class C20(object):
             "perturbation sizes 1e-6..1, subdivisions 1..12, grid (length 1..8, subdivisions 1..6; all of them in the "
             "thorough tier); operations: clr/alr/ilr and inverses, closure/perturbation/power, inner/norm/dist, "
             "isometry, perturb_support, replace_zeros, jittered, convex_combination, downsample, slots, simplex_grid; "
+            "neighbouring pairs (kind `near`: y = x perturbed by a composition within 1e-2..1e-13 of the neutral element, "
+            "x near the neutral element, y equal to x, aliased arguments, stacked (k,n) arguments) judged with a "
+            "round-off-sized tolerance; call sequences: every array case may be evaluated twice on the same array "
+            "objects (`reps`), convex_combination is swept over 1..4 weight vectors on the same component pmfs "
+            "(given as one float ndarray, as nested lists or as a list of rows; weights as ndarray or list); "
             "non-trivial = dimension >= 3 and not the uniform composition")
     tolerances = {'transcendental functions vs the model in Float': 'rtol 1e-9 / atol 1e-11',
                   'slots / simplex_grid': 'exact (as sets of integer tuples, multiplicities included)',
+                  'isometry on neighbouring pairs (kind near)':
+                      'rtol 1e-9 + 32 u sqrt(D), u = 2^-52 (1 + max |log2 entry|): a forward bound for the round-off of '
+                      'both sides (each is a Euclidean norm of D differences of centred base-2 logarithms); measured on the '
+                      'unchanged code: at most 0.65 u sqrt(D). Inner products: rtol 1e-9 + 32 u sqrt(D) (|x| + |y| + u)',
                   'rational operations (closure, convex, replace_zeros, downsample) vs exact model': 'atol 1e-12'}
     exhaustive = {'thorough': True}
 
     def gen(self, rng, tier):
-        n = 220 if tier == 'quick' else 30000
+        n = 300 if tier == 'quick' else 30000
         if tier == 'thorough':
             for k in range(1, 9):
                 for m in range(1, 7):
@@ -41,7 +51,7 @@ class C20(object):
                     yield {'kind': 'slots', 'n': m, 'k': k}
         for _ in range(n):
             kind = rng.choice(['roundtrip', 'roundtrip', 'ops', 'isometry', 'perturb', 'replace', 'convex', 'downsample',
-                               'grid', 'slots'])
+                               'grid', 'slots', 'near', 'near', 'convex'])
             if kind in ('grid', 'slots'):
                 if kind == 'grid':
                     yield {'kind': 'grid', 'length': rng.randint(1, 6), 'sub': rng.randint(1, 6)}
@@ -54,7 +64,28 @@ class C20(object):
             c = {'kind': kind, 'x': [str(v) for v in x], 'y': [str(v) for v in y], 'dim': dim,
                  'a': rng.choice([-2.0, -1.0, 0.5, 2.0, 3.0]), 'seed': rng.randrange(2 ** 31),
                  'eps': rng.choice([1e-6, 1e-3, 0.1, 1.0]), 'shape': rng.choice(['ball', 'square']),
-                 'sub': rng.randint(1, 12)}
+                 'sub': rng.randint(1, 12),
+                 # how many times the case is evaluated on the same array objects
+                 'reps': rng.choice([1, 1, 2])}
+            if kind == 'near':
+                # a pair of neighbours: y = x (+) closure(1 + size t), |t_i| <= 1, in exact arithmetic; or x itself
+                # within `size` of the neutral element; or y a separate copy of x
+                c['about'] = about = rng.choice(['pair', 'pair', 'pair', 'neutral', 'same'])
+                c['size'] = size = rng.choice(['1e-2', '1e-4', '1e-5', '1e-6', '1e-7', '1e-8', '1e-10', '1e-13'])
+                t = [Fraction(rng.randint(-1000, 1000), 1000) for _ in range(dim)]
+                if len(set(t)) == 1:
+                    t[0] = -t[0] if t[0] else Fraction(1)
+                if about == 'neutral':
+                    x = [Fraction(1, dim)] * dim
+                if about == 'same':
+                    t = [Fraction(0)] * dim
+                yq = [v * (1 + Fraction(size) * tt) for v, tt in zip(x, t)]
+                tot = sum(yq)
+                yq = [v / tot for v in yq]
+                if about == 'neutral':
+                    x, yq = yq, x
+                c['x'] = [str(v) for v in x]
+                c['y'] = [str(v) for v in yq]
             if kind in ('replace', 'downsample', 'perturb'):
                 # pmfs with zeros
                 k = rng.randint(0, dim - 2)
@@ -82,6 +113,16 @@ class C20(object):
                     c['w'][0] = '1'
                 if rng.random() < 0.3:
                     c['w'] = None
+                # a sweep: further weight vectors applied to the same component pmfs, one call after the other
+                ws = [c['w']]
+                for _ in range(rng.choice([0, 1, 2, 3])):
+                    wj = [str(Fraction(rng.randint(0, 5), rng.choice([1, 7]))) for _ in range(m)]
+                    if all(Fraction(w) == 0 for w in wj):
+                        wj[rng.randrange(m)] = '1'
+                    ws.append(None if rng.random() < 0.15 else wj)
+                c['ws'] = ws
+                c['form'] = rng.choice(['ndarray', 'ndarray', 'list', 'rows'])
+                c['wform'] = rng.choice(['ndarray', 'ndarray', 'list', 'int'])
             yield c
 
     def rand_comp(self, rng, dim):
@@ -162,11 +203,34 @@ class C20(object):
                                          'pairs of grid points (%d pairs, %d distinct)' % (k, m, len(pairs), len(set(pairs))))
             return r
 
-        x = np.array([float(Fraction(v)) for v in case['x']])
-        y = np.array([float(Fraction(v)) for v in case['y']])
+        # x0 / y0: the values of the case (reference for the model and the oracle, never handed to dit);
+        # x / y: the array objects handed to dit -- the same objects in every evaluation of the case
+        x0 = np.array([float(Fraction(v)) for v in case['x']])
+        y0 = np.array([float(Fraction(v)) for v in case['y']])
+        x, y = x0.copy(), y0.copy()
         dim = case['dim']
-        r.features += ['dim=%d' % dim]
+        reps = int(case.get('reps', 1))
+        r.features += ['dim=%d' % dim, 'reps=%d' % reps]
         r.nontrivial = dim >= 3 and len(set(case['x'])) > 1
+        state = {}
+        if kind == 'convex':
+            r.features += ['calls=%d' % (len(case.get('ws') or [0]) * reps), 'pmfs=%s' % case.get('form', 'ndarray'),
+                           'weights=%s' % case.get('wform', 'ndarray')]
+        if kind == 'near':
+            r.features += ['about=%s' % case['about'], 'size=%s' % case['size']]
+        for rep in range(reps):
+            self.once(case, drv, r, dit, A, P, x, y, x0, y0, state)
+            if r.bad():
+                if rep:
+                    note = 'evaluation #%d on the same array objects: ' % (rep + 1)
+                    r.oracle_fail = r.oracle_fail and note + r.oracle_fail
+                    r.mismatch = r.mismatch and note + r.mismatch
+                break
+        return r
+
+    def once(self, case, drv, r, dit, A, P, x, y, x0, y0, state):
+        kind = case['kind']
+        dim = case['dim']
 
         def cmpf(name, got, args):
             mo = unfl(drv.call('aitchf', args))
@@ -192,11 +256,11 @@ class C20(object):
             for name, f, finv in (('clr', A.clr, A.clr_inv), ('alr', A.alr, A.alr_inv), ('ilr', A.ilr, A.ilr_inv)):
                 t = f(x)
                 back = finv(t)
-                err = float(np.max(np.abs(back - x) / x))
+                err = float(np.max(np.abs(back - x0) / x0))
                 if not (err <= 1e-9):
                     r.oracle_fail = '%s_inv(%s(x)) differs from x by relative %g' % (name, name, err)
                     break
-                r.mismatch = r.mismatch or cmpf(name, t, [name, fl(x), []]) or cmpf(name + '_inv', back, [name + '_inv', fl(t), []])
+                r.mismatch = r.mismatch or cmpf(name, t, [name, fl(x0), []]) or cmpf(name + '_inv', back, [name + '_inv', fl(t), []])
             # other direction: arbitrary coordinate vector
             if not r.oracle_fail:
                 rs = np.random.RandomState(case['seed'])
@@ -207,17 +271,17 @@ class C20(object):
                     r.oracle_fail = 'ilr(ilr_inv(v)) differs from v'
                 if not r.oracle_fail and float(np.max(np.abs(A.alr(A.alr_inv(v)) - v))) > 1e-8:
                     r.oracle_fail = 'alr(alr_inv(v)) differs from v'
-            r.detail = {'x': list(x)}
-            return r
+            r.detail = {'x': list(x0)}
+            return
         if kind == 'ops':
             a = case['a']
             res = {'closure': A.closure(x * 3.7), 'perturbation': A.perturbation(x, y), 'power': A.power(x, a)}
             for name, v in res.items():
                 r.oracle_fail = r.oracle_fail or simplex_fail(name, v)
-            r.mismatch = (cmpf('closure', res['closure'], ['closure', fl(x * 3.7), []])
-                          or cmpf('perturbation', res['perturbation'], ['perturbation', fl(x), fl(y)])
-                          or cmpf('power', res['power'], ['power', fl(x), fl([a])]))
-            return r
+            r.mismatch = (cmpf('closure', res['closure'], ['closure', fl(x0 * 3.7), []])
+                          or cmpf('perturbation', res['perturbation'], ['perturbation', fl(x0), fl(y0)])
+                          or cmpf('power', res['power'], ['power', fl(x0), fl([a])]))
+            return
         if kind == 'isometry':
             d1 = float(A.dist(x, y))
             d2 = float(np.linalg.norm(A.ilr(x) - A.ilr(y)))
@@ -227,60 +291,175 @@ class C20(object):
                 r.oracle_fail = 'Aitchison distance %r but Euclidean distance of ilr coordinates %r' % (d1, d2)
             elif not (abs(ip - ip2) <= 1e-8 * max(1.0, abs(ip))):
                 r.oracle_fail = 'Aitchison inner product %r but dot product of ilr coordinates %r' % (ip, ip2)
-            r.mismatch = (cmpf('dist', [d1], ['dist', fl(x), fl(y)]) or cmpf('inner', [ip], ['inner', fl(x), fl(y)])
-                          or cmpf('norm', [float(A.norm(x))], ['norm', fl(x), []]))
-            return r
+            r.mismatch = (cmpf('dist', [d1], ['dist', fl(x0), fl(y0)]) or cmpf('inner', [ip], ['inner', fl(x0), fl(y0)])
+                          or cmpf('norm', [float(A.norm(x))], ['norm', fl(x0), []]))
+            return
+        if kind == 'near':
+            self.near(case, r, A, x, y, x0, y0, cmpf)
+            return
         if kind == 'perturb':
-            if int((x > 0).sum()) < 2:
-                return r
+            if int((x0 > 0).sum()) < 2:
+                return
             rs = np.random.RandomState(case['seed'])
             out = P.perturb_support(x, eps=case['eps'], shape=case['shape'], prng=rs)
             r.oracle_fail = simplex_fail('perturb_support', out, positive=False)
-            if not r.oracle_fail and not np.array_equal(out > 0, x > 0):
-                r.oracle_fail = 'perturb_support changed the support: %s -> %s' % (x, out)
+            if not r.oracle_fail and not np.array_equal(out > 0, x0 > 0):
+                r.oracle_fail = 'perturb_support changed the support: %s -> %s' % (x0, out)
             if not r.oracle_fail:
                 rs = np.random.RandomState(case['seed'])
                 j = P.jittered(x, jitter=1e-5, zeros=True, prng=rs)
                 r.oracle_fail = simplex_fail('jittered', j)
-            return r
+            return
         if kind == 'replace':
             delta = case['delta']
             out = P.replace_zeros(x, delta, rand=False)
-            nz = int((x == 0).sum())
-            mo = [float(unq(v)) for v in drv.call('simplexq', ['replace_zeros', [q(Fraction(v)) for v in x],
+            nz = int((x0 == 0).sum())
+            mo = [float(unq(v)) for v in drv.call('simplexq', ['replace_zeros', [q(Fraction(v)) for v in x0],
                                                                [q(Fraction(delta))] * nz])]
             if any(abs(a - b) > 1e-12 for a, b in zip(out, mo)):
                 r.mismatch = 'replace_zeros: impl %s model %s' % (list(out), mo)
             r.oracle_fail = simplex_fail('replace_zeros', out)
-            if not r.oracle_fail and any(abs(o - delta) > 1e-15 for o, v in zip(out, x) if v == 0):
+            if not r.oracle_fail and any(abs(o - delta) > 1e-15 for o, v in zip(out, x0) if v == 0):
                 r.oracle_fail = 'replace_zeros did not fill the zeros with delta'
             if not r.oracle_fail:
                 rs = np.random.RandomState(case['seed'])
                 out2 = P.replace_zeros(x, delta, rand=True, prng=rs)
                 r.oracle_fail = simplex_fail('replace_zeros(rand)', out2, positive=nz == 0 or True)
-            return r
+            return
         if kind == 'convex':
-            pm = np.array([[float(Fraction(v)) for v in p] for p in case['pmfs']])
-            w = None if case['w'] is None else np.array([float(Fraction(v)) for v in case['w']])
-            out = P.convex_combination(pm, None if w is None else w.copy())
-            wq = [q(Fraction(1))] * len(case['pmfs']) if case['w'] is None else [q(Fraction(v)) for v in case['w']]
-            mo = [float(unq(v)) for v in drv.call('simplexq', ['convex', [[q(Fraction(v)) for v in p] for p in case['pmfs']], wq])]
-            if any(abs(a - b) > 1e-12 for a, b in zip(out, mo)):
-                r.mismatch = 'convex_combination: impl %s model %s' % (list(out), mo)
-            r.oracle_fail = simplex_fail('convex_combination', out, positive=False)
-            return r
+            # the component pmfs are built once per case and handed to every call of the sweep (and of every
+            # repetition); the reference of every call is the exact mixture of the case's rationals
+            pmq = [[Fraction(v) for v in p] for p in case['pmfs']]
+            if 'pm' not in state:
+                pm0 = np.array([[float(v) for v in p] for p in pmq])
+                form = case.get('form', 'ndarray')
+                state['pm'] = pm0 if form == 'ndarray' else pm0.tolist() if form == 'list' else [row.copy() for row in pm0]
+                state['calls'] = 0
+            pm = state['pm']
+            for wj in (case.get('ws') or [case['w']]):
+                if wj is None:
+                    w = None
+                else:
+                    wf = [Fraction(v) for v in wj]
+                    wform = case.get('wform', 'ndarray')
+                    if wform == 'int' and all(v.denominator == 1 for v in wf):
+                        w = np.array([int(v) for v in wf])
+                    elif wform == 'list':
+                        w = [float(v) for v in wf]
+                    else:
+                        w = np.array([float(v) for v in wf])
+                state['calls'] += 1
+                out = P.convex_combination(pm, w)
+                wq = [q(Fraction(1))] * len(pmq) if wj is None else [q(Fraction(v)) for v in wj]
+                mo = [float(unq(v)) for v in drv.call('simplexq', ['convex', [[q(v) for v in p] for p in pmq], wq])]
+                which = 'convex_combination' if state['calls'] == 1 else \
+                    'convex_combination (call #%d with the same component pmfs, weights %s)' % (state['calls'], wj)
+                out = np.asarray(out, dtype=float)
+                if out.shape != (dim,):
+                    r.mismatch = '%s: shape %s' % (which, out.shape)
+                    return
+                if any(abs(a - b) > 1e-12 for a, b in zip(out, mo)):
+                    r.mismatch = '%s: impl %s model %s' % (which, list(out), mo)
+                r.oracle_fail = simplex_fail(which, out, positive=False)
+                if r.bad():
+                    return
+            return
         if kind == 'downsample':
             m = case['sub']
             out = P.downsample(x, m)
-            mo = [float(unq(v)) for v in drv.call('simplexq', ['downsample', m, [q(Fraction(v)) for v in x]])]
-            r.detail = {'x': list(x), 'impl': list(out), 'model': mo}
-            if any(abs(a - b) > 1e-9 for a, b in zip(out, mo)) and not self.near_tie(x, m):
+            mo = [float(unq(v)) for v in drv.call('simplexq', ['downsample', m, [q(Fraction(v)) for v in x0]])]
+            r.detail = {'x': list(x0), 'impl': list(out), 'model': mo}
+            if any(abs(a - b) > 1e-9 for a, b in zip(out, mo)) and not self.near_tie(x0, m):
                 r.mismatch = 'downsample: impl %s model %s' % (list(out), mo)
             r.oracle_fail = simplex_fail('downsample', out, positive=False)
             if not r.oracle_fail and any(abs(v * m - round(v * m)) > 1e-7 for v in out):
                 r.oracle_fail = 'downsample(x, %d) = %s is not on the grid' % (m, list(out))
-            return r
-        return r
+            return
+        return
+
+    # ------------------------------------------------------------------
+    EPS = 2.0 ** -52
+
+    @staticmethod
+    def aitchison_ref(xs, ys):
+        """Aitchison distance, norms and inner product of the doubles xs, ys from the definition (Euclidean
+        geometry of the centred base-2 logarithms), in 60-digit decimal arithmetic."""
+        getcontext().prec = 60
+        ln2 = Decimal(2).ln()
+
+        def clog(v):
+            fr = [Fraction(float(t)) for t in v]
+            ls = [(Decimal(f.numerator).ln() - Decimal(f.denominator).ln()) / ln2 for f in fr]
+            m = sum(ls) / len(ls)
+            return [t - m for t in ls]
+
+        cx, cy = clog(xs), clog(ys)
+        return {'dist': float(sum((a - b) ** 2 for a, b in zip(cx, cy)).sqrt()),
+                'inner': float(sum(a * b for a, b in zip(cx, cy))),
+                'nx': float(sum(a * a for a in cx).sqrt()), 'ny': float(sum(b * b for b in cy).sqrt())}
+
+    def near(self, case, r, A, x, y, x0, y0, cmpf):
+        """ilr is an isometry for the Aitchison distance -- on neighbouring compositions, where the distance is
+        small compared with the logarithms it is made of, so the comparison has to be relative to the distance
+        and not to 1.  Both sides are Euclidean norms of D differences of centred logarithms; with
+        u = eps (1 + max |log2 entry|) bounding the round-off of one centred logarithm, each side carries an
+        absolute error of a few u sqrt(D)."""
+        D = len(x0)
+        L = float(max(np.max(np.abs(np.log2(x0))), np.max(np.abs(np.log2(y0)))))
+        u = self.EPS * (1.0 + L)
+        ref = self.aitchison_ref(x0, y0)
+
+        def tol_d(*ds):
+            return 1e-9 * max(ds) + 32 * u * math.sqrt(D)
+
+        def fail(what, got, other, how):
+            return ('%s = %r but %s = %r (definition, 60 digits: %r; allowed difference %.3g)'
+                    % (what, got, how, other, ref_of[what.split('(')[0]], tol_d(got, other)))
+
+        ref_of = {'dist': ref['dist'], 'metric': ref['dist'], 'norm': ref['nx']}
+        ix, iy = A.ilr(x), A.ilr(y)
+        d2 = float(np.linalg.norm(ix - iy))
+        checks = [('dist(x, y)', float(A.dist(x, y))), ('dist(y, x)', float(A.dist(y, x))),
+                  ('metric(x, y)', float(A.metric(x, y)))]
+        # the same pair as rows of stacked (k, n) arguments
+        st = np.ravel(A.dist(np.array([x0, y0, x0]), np.array([y0, x0, y0])))
+        if st.shape != (3,):
+            r.mismatch = 'dist of stacked (3, n) arguments has shape %s' % (st.shape,)
+            return
+        checks += [('dist(rows)[%d]' % i, float(v)) for i, v in enumerate(st)]
+        for what, d1 in checks:
+            if not (abs(d1 - d2) <= tol_d(d1, d2)):
+                r.oracle_fail = fail(what, d1, d2, '||ilr(x) - ilr(y)||')
+                return
+        # norms, with the composition itself and through the aliased inner product norm() is made of
+        for nm, v, iv, nref in (('x', x, ix, ref['nx']), ('y', y, iy, ref['ny'])):
+            n1 = float(A.norm(v))
+            n2 = float(np.linalg.norm(iv))
+            ref_of['norm'] = nref
+            if not (abs(n1 - n2) <= tol_d(n1, n2)):
+                r.oracle_fail = fail('norm(%s)' % nm, n1, n2, '||ilr(%s)||' % nm)
+                return
+            s1 = float(A.inner(v, v))
+            s2 = float(np.dot(iv, iv))
+            tol = 1e-9 * abs(s2) + 32 * u * math.sqrt(D) * (2 * n2 + u)
+            if not (abs(s1 - s2) <= tol):
+                r.oracle_fail = ('inner(%s, %s) (one object) = %r but <ilr(%s), ilr(%s)> = %r (definition: %r; allowed '
+                                 'difference %.3g)' % (nm, nm, s1, nm, nm, s2, nref ** 2, tol))
+                return
+        ip = float(A.inner(x, y))
+        ip2 = float(np.dot(ix, iy))
+        tol = 1e-9 * abs(ip2) + 32 * u * math.sqrt(D) * (ref['nx'] + ref['ny'] + u)
+        if not (abs(ip - ip2) <= tol):
+            r.oracle_fail = ('inner(x, y) = %r but <ilr(x), ilr(y)> = %r (definition: %r; allowed difference %.3g)'
+                             % (ip, ip2, ref['inner'], tol))
+            return
+        # correspondence: the code's distance against the definition, and against the model in Float
+        d1 = checks[0][1]
+        if not (abs(d1 - ref['dist']) <= tol_d(d1, ref['dist'])):
+            r.mismatch = 'dist: impl %r, definition evaluated with 60 digits %r' % (d1, ref['dist'])
+        r.mismatch = r.mismatch or (cmpf('dist', [d1], ['dist', fl(x0), fl(y0)])
+                                    or cmpf('norm', [float(A.norm(x))], ['norm', fl(x0), []]))
+        r.detail = {'x': list(x0), 'y': list(y0), 'dist': d1, 'ilr': d2, 'definition': ref['dist']}
 
     @staticmethod
     def near_tie(x, m):
